@@ -28,6 +28,19 @@ add("C08", "model-based operation sequences (generated histories of PBM operatio
     "Generated histories of up to 30 grid operations (update, load, extend, re-mesh, automatic adjustment, backup/revert, reset, adaptive toggle) on one PopulationBalanceModel with invariants after every step (bounds strictly increasing from min to max, midpoints, lengths, non-negative finite populations) and per-operation post-conditions (extension leaves old classes untouched, re-mesh onto a covering grid preserves the third moment to 1e-9, adaptive adjustment never exceeds maxBins and reports change/newIndices truthfully, reset/revert restore); every ...FromN moment function vs a scalar reference with a different stored distribution.",
     "class counts kept above minBins/2 (IndexError domain, see DESIGN.md); revert only with a valid backup; recording not part of this machine")
 
+add("C01", "hypothesis-generated precipitation scenarios run on analytic toy thermodynamics; per-step conservation oracle evaluated by an observer on an iterator-level snapshot (invariant over the history)",
+    "Generated search over precipitation configurations (binary and ternary toy alloys, 1-3 stoichiometric phases, five site types, four shapes, temperature profiles, grids, constraint toggles, both iterators, 1-3 solve calls). After every accepted step an observer recomputes, from the raw distribution the integrator produced, x0 = (1-sum f) x_matrix + sum_p (V_a/V_b) F_p sum_i n_i R_i^3 x_beta for every solute and compares it with the recorded composition, volume fraction and precipitate content (rtol 1e-9); the documented clamp is recognised and counted.",
+    "toy backends (stoichiometric precipitates); infinite-precipitate-diffusion mode; step cap; edge/corner volume factors taken from the model (checked in C14)")
+add("C02", "same generated scenarios as C01 with PSD recording; per-step moment oracle (differential against scalar moments of the snapshot) and a one-sided bound on number-density growth",
+    "After every accepted step the recorded number density, mean radius and volume fraction are compared with the zeroth, first/zeroth and scaled third moment of the snapshot distribution after the documented removals; the recorded PSD history row is compared with the same moments up to classes below one particle; the number-density increase over a step is bounded by dt x the largest stage nucleation rate.",
+    "stage nucleation rates read from the model's working copy inside the iterator wrapper; re-mesh number jumps are labelled, not judged")
+add("C14", "hypothesis-generated CNT inputs against closed forms and identities (Clemm-Fisher), monotonicity (metamorphic) relations, model-based setter sequences vs a fresh object",
+    "Generated search over driving forces (both signs, 7 decades), temperatures, interfacial/grain-boundary energies up to 0.999 of each site limit, molar volumes, five site types, scalar and array arguments: finiteness and sign of every quantity, R* >= R_min, J = 0 without driving force, incubation factor in [0,1] and rising, steady-state rate monotone in the driving force, spherical critical radius and scaled barrier when unclamped, geometric identities, available sites decreasing with occupation, cached factors after setter sequences equal to a fresh object.",
+    "stub diffusivity for the impingement rate; k within 0.999 k_max; available sites through PrecipitateModel._calcNucleationSites")
+add("C15", "hypothesis-generated aspect ratios vs independent quadrature (spheroid area and capacitance integrals), continuity/monotonicity relations, scalar-array differential, bitwise immutability, root check",
+    "Generated search over aspect ratios in [1,100] (and inputs below 1), four shapes, scalar/list/int/float arrays and radius-dependent aspect-ratio functions: semi-axes volume and ratio, thermodynamic factor = quadrature area ratio, kinetic factor = quadrature capacitance ratio (1e-8), monotone and 1 at 1, continuity at 1 for every shape, scalar = array element, caller's array bit-identical, findRcrit returns a root within its tolerance when bracketed.",
+    "scipy.integrate.quad as reference; 1e-7 slack near ar=1 for cancellation; continuity threshold 1e-3")
+
 NOT_YET = {}
 
 ALL = ["C%02d" % i for i in range(1, 21)]
